@@ -115,6 +115,8 @@ class EZSP:
                 pass
             else:
                 LOGGER.debug("Received a reset on startup, not resetting again")
+                # The NCP has just reset: it only understands the legacy frame format
+                self._switch_protocol_version(v4.EZSPv4.VERSION)
                 self.start_ezsp()
 
         if not self.is_ezsp_running:
